@@ -448,6 +448,7 @@ open Lean Elab Command in
                 f.write(f"# property {self.prop} tier {self.tier} seed {self.seed}\n")
                 for b in self.broken_obligations:
                     f.write(f"# BROKEN-OBLIGATION {b}\n")
+                spec_v = [v for v in spec_v if v[4] == "miri"] + [v for v in spec_v if v[4] != "miri"]
                 other_v = [v for v in self.violations if v[0] not in ("impl∉spec", "driver-abort")]
                 for kind, req, out, exp, tag in (spec_v + other_v)[:200]:
                     f.write(f"# {kind} build={tag} impl=[{out}] expected=[{exp}]\n{req}\n")
@@ -661,6 +662,65 @@ fpdec = {{ path = "{REPO}" }}
 
 
 # --------------------------------------------------------------------------- main flows
+def run_miri(run, lines, limit):
+    """C06 / C18: the parser entry points under Miri (debug assertions off, so that a `debug_assert!` in front of an unsafe read does
+    not hide what an optimised build would do).  Literals come from this run's own `parse` requests (short ones first: the 8-byte
+    windows of the SWAR loop end inside or at the end of the string).  Undefined behaviour on a literal is a violation of the clause
+    "no input makes the parser read outside the string"; the replay entry is the `parse` request, tagged build=miri."""
+    lits, seen = [], set()
+    for l in lines:
+        t = l.split()
+        if len(t) == 3 and t[1] == "parse" and t[2] not in seen:
+            seen.add(t[2])
+            try:
+                b = b"" if t[2] == "-" else bytes.fromhex(t[2])
+                b.decode("utf-8")
+            except (ValueError, UnicodeDecodeError):
+                continue
+            lits.append((t[2], b))
+    lits.sort(key=lambda x: (len(x[1]) > 40, 0))
+    short = [x for x in lits if len(x[1]) <= 40]
+    lits = short[:limit] + [x for x in lits if len(x[1]) > 40][: max(0, limit // 10)]
+    # constructed: digit runs of every length 0..26 alone, after a sign, before a point / an exponent (window boundaries)
+    for n in range(0, 27):
+        for pre, post in (("", ""), ("-", ""), ("", "."), ("", "e1"), ("0.", ""), ("", ".5e-1")):
+            b = (pre + "1234567890123456789012345678"[:n] + post).encode()
+            lits.append((b.hex() or "-", b))
+    crate = HARNESS / "miri"
+    toml = (crate / "Cargo.toml.in").read_text().replace("@REPO@", str(REPO))
+    if not (crate / "Cargo.toml").exists() or (crate / "Cargo.toml").read_text() != toml:
+        (crate / "Cargo.toml").write_text(toml)
+    shutil.copy(REPO / "Cargo.lock" if (REPO / "Cargo.lock").exists() else HARNESS / "Cargo.lock", crate / "Cargo.lock")
+    env = dict(ENV)
+    env["RUSTFLAGS"] = "-C debug-assertions=off"
+    start, found, t0 = 0, 0, time.time()
+    while start < len(lits) and found < 3:
+        body = ", ".join('b"' + "".join(f"\\x{c:02x}" for c in b) + '"' for _, b in lits[start:])
+        (crate / "src/lits.rs").write_text(f"static LITS: &[&[u8]] = &[{body}];\n")
+        r = subprocess.run(["cargo", "+nightly", "miri", "run", "--offline", "--target-dir", str(HARNESS / "target-miri")], cwd=crate,
+                           capture_output=True, text=True, env=env)
+        last = -1
+        for ln in r.stdout.split("\n"):
+            if ln.startswith("L "):
+                last = int(ln[2:])
+        if "DONE" in r.stdout and r.returncode == 0:
+            break
+        if "Undefined Behavior" in r.stderr and last >= 0:
+            hx = lits[start + last][0]
+            what = re.search(r"error: Undefined Behavior: ([^\n]*)", r.stderr)
+            run.violations.append(("impl∉spec", f"heven parse {hx}", "undefined behaviour under Miri: " + (what.group(1) if what else "?"),
+                                   "no read outside the string (C06)", "miri"))
+            found += 1
+            start = start + last + 1
+            continue
+        # Miri itself could not be run (toolchain missing, build error of the crate under test): an obligation that cannot be checked
+        run.broken_obligations.append("Miri run of the parser failed: " + (r.stderr.strip().split("\n") or ["?"])[-1][:200])
+        break
+    run.extra["miri_literals"] = len(lits)
+    run.extra["miri_ub_found"] = found
+    run.say(f"[miri] {len(lits)} literals, undefined behaviour on {found} ({time.time() - t0:.1f}s)")
+
+
 # properties whose statement is "… under the thread's current rounding mode": their requests also run inside thread schedules
 THREAD_MIX_PROPS = ("C02", "C03", "C04", "C05", "C11", "C16")
 THREAD_MIX_N = (120, 1500, 1500)       # schedules: quick, thorough, after a broken obligation
@@ -762,12 +822,14 @@ def run_check(prop, tier, seed):
                 if a != b:
                     run.violations.append(("impl∉spec", req, f"packed: {b}", f"same as default layout: {a}", "dev+packed"))
         run.features_run.append(feats)
+    if prop == "C06" and (tier == "thorough" or run.broken_obligations or run.violations or os.environ.get("VERIF_MIRI") == "1"):
+        run_miri(run, lines, 1500 if tier == "thorough" else 300)
     # shrink the first few failures
     if run.violations and first:
         shrunk = []
         spec_first = sorted(run.violations, key=lambda v: 0 if v[0] == "impl∉spec" else 1)
         for v in spec_first[:3]:
-            if v[0] in ("impl∉spec", "impl≠model") and not v[1].startswith("Dec!") and not v[1].startswith("threads"):
+            if v[0] in ("impl∉spec", "impl≠model") and not v[1].startswith("Dec!") and not v[1].startswith("threads") and v[4] != "miri":
                 ex = exes.get(v[4], first)
                 s = run.shrink(ex[0], ex[1], v[1], v[0])
                 if s != v[1]:
@@ -793,10 +855,17 @@ def replay(prop, path):
         if m:
             tag = m.group(1)
         elif l.strip() and not l.startswith("#"):
-            tagged.append((tag if tag in PROFILE_FLAGS else "dev", l))
+            tagged.append((tag if (tag in PROFILE_FLAGS or tag == "miri") else "dev", l))
             tag = "dev"
     if reqs and not reqs[0].startswith("Dec!"):
-        for prof in list(dict.fromkeys(t for t, _ in tagged)):
+        miri_lines = [l for t, l in tagged if t == "miri"]
+        if miri_lines:
+            n0 = len(run.violations)
+            run_miri(run, miri_lines, len(miri_lines))
+            for v in run.violations[n0:]:
+                print(f"FAIL [miri] {v[1]}\n      {v[2]}")
+            bad += len(run.violations) - n0
+        for prof in list(dict.fromkeys(t for t, _ in tagged if t != "miri")):
             sub = [l for t, l in tagged if t == prof]
             exe = run.cargo_build(prof)
             impl, model = run.run_pair(exe, PROFILE_FLAGS[prof][2], sub, "replay-" + prof)
